@@ -31,10 +31,25 @@ def jsonLines (t : Tree) (vis : Nat → String → Bool) (ks : List JKey) (docke
     p ++ "=" ++ (match hit with
       | some k => (match idx dockeys k.key with | some j => s!"arg{j}" | none => "zero")
       | none => "zero"))
+  -- one embedded pointer nil, the rest filled: MarshalJSON's guard of a field names exactly the pointer embeds on ITS way
+  let lps := leavesPtrs [] [] 0 t
+  let ptrsOf (name : String) : List (List String) :=
+    match (lps.find? (fun l => l.2.2.1.name = name && !l.2.2.1.skip && vis l.2.1 name)) with
+    | some l => if mirrorPanic then allocMapOf (flatten t) name else l.2.2.2.2
+    | none => []
+  let pembeds := ((lps.map (·.2.2.2.2)).flatten).eraseDups
+  let mparts := pembeds.map (fun P =>
+    ("mpart:" ++ ".".intercalate P, ";".intercalate (sorted.map (fun key =>
+      match ks.find? (·.key = key) with
+      | some k => key ++ "=" ++ (if k.exported || k.hasGet then
+          (match targetOf t vis k.name with
+           | some (_, i, _) => if (ptrsOf k.name).contains P then "zero" else s!"arg{i}"
+           | none => "?") else "zero")
+      | none => key ++ "=?"))))
   -- f531104: UnmarshalJSON allocates, MarshalJSON tests, the embedded pointer structs on the way: no panic any more
   let nilPanic := mirrorPanic && false
   [("keys", " ".intercalate sorted), ("marshal", ";".intercalate mline), ("um", ";".intercalate uline),
-   ("umnil", if nilPanic then "panic" else "ok"), ("mnil", "ok")]
+   ("umnil", if nilPanic then "panic" else "ok"), ("mnil", "ok")] ++ mparts
 
 /-- `(json (getset b) (tagcase c) (typedoc …) (facts …) (dockeys k…) (tree M…))` -/
 def jsonCase (id : String) (payload : List Sexp) : List String :=
